@@ -851,3 +851,38 @@ func (p *Prog) helperBoundArg(fi *FuncInfo, e ast.Expr) (*FuncInfo, []*Term, []*
 	}
 	return h, args, others
 }
+
+// liftInto: the node of api through which the statement n of fn is reached when fn is api itself or an
+// unexported helper reachable from api through a chain of single call sites (at most 3 deep; never a value,
+// never go/defer) — the statement has then, for rules about what surrounds it in api, the position of that call.
+func (p *Prog) liftInto(fn *FuncInfo, n ast.Node, api *FuncInfo) (ast.Node, bool) {
+	fn = rootFuncInfo(fn)
+	for k := 0; k < 4; k++ {
+		if fn == api {
+			return n, true
+		}
+		caller, call, ok := p.singleCaller(fn)
+		if !ok {
+			return nil, false
+		}
+		fn, n = rootFuncInfo(caller), call
+	}
+	return nil, false
+}
+
+// bodyHasLockOp: fi (shallowly: not its callees) locks or unlocks a sync mutex somewhere.
+func (p *Prog) bodyHasLockOp(fi *FuncInfo) bool {
+	found := false
+	inspectBody(fi, func(x ast.Node) bool {
+		if call, ok := x.(*ast.CallExpr); ok {
+			if f := p.Callee(call); f != nil && f.Pkg() != nil && f.Pkg().Path() == "sync" {
+				switch f.Name() {
+				case "Lock", "Unlock", "RLock", "RUnlock":
+					found = true
+				}
+			}
+		}
+		return true
+	})
+	return found
+}
